@@ -85,7 +85,7 @@ impl Property for C01 {
         "C01"
     }
     fn rule(&self) -> &'static str {
-        "profile `flow`: programs (nesting <= 5) of let/loop/repeat/while/resetRandom/rows decoded from a choice stream, bounds from {literals -3..4, variables, arithmetic on counters, device reads}, total expressions, values masked to fit; in a third of the cases 1-3 statements that divide by a literal zero are planted (row, let, repeat row, loop bound with and without a body) and the caller goes on after each error item; in a fifth the driver's answer to one call is malformed (that row is an error item, the caller goes on); sub-profile `names` (a quarter): no device reads, variables and counters may be named like output signals, the device answers differently on every call (elsewhere: no signal-named variables, a device that answers the same on every call); oracle = reference interpreter trace (row count, per row inputs + expected values, end of iteration). Non-trivial: source has nesting>=2 | bound<=0 reached | computed/device bound | shadowing | let in loop body | loop inside while, and the run yields >= 2 rows; distinct by hash of source + signal list + driver script."
+        "profile `flow`: programs (nesting <= 5) of let/loop/repeat/while/resetRandom/rows decoded from a choice stream, bounds from {literals -3..4, variables, arithmetic on counters, device reads}, total expressions, values masked to fit; in a third of the cases 1-3 statements that divide by a literal zero are planted (row, let, repeat row, loop bound with and without a body) and the caller goes on after each error item; in a fifth a loop is planted whose bound `(6 / dz)` is evaluable on entry only (the body sets dz to 0); in a fifth the driver's answer to one call is malformed (that row is an error item, the caller goes on); sub-profile `names` (a quarter): no device reads, variables and counters may be named like output signals, the device answers differently on every call (elsewhere: no signal-named variables, a device that answers the same on every call); oracle = reference interpreter trace (row count, per row inputs + expected values, end of iteration). Non-trivial: source has nesting>=2 | bound<=0 reached | computed/device bound | shadowing | let in loop body | loop inside while, and the run yields >= 2 rows; distinct by hash of source + signal list + driver script."
     }
     fn cases(&self, tier: Tier) -> u64 {
         match tier {
@@ -94,7 +94,7 @@ impl Property for C01 {
         }
     }
     fn required_classes(&self) -> Vec<&'static str> {
-        vec!["nesting>=2", "bound<=0-reached", "shadowing", "let-in-loop-body", "loop-in-while", "reads-device", "repeat", "bits()", "bits(k>=33)", "bits(0)", "planted-error-statements", "row-in-loop-after-error-item", "names-sub-profile", "rows-after-malformed-answer", "empty-loop-body"]
+        vec!["nesting>=2", "bound<=0-reached", "shadowing", "let-in-loop-body", "loop-in-while", "reads-device", "repeat", "bits()", "bits(k>=33)", "bits(0)", "planted-error-statements", "row-in-loop-after-error-item", "names-sub-profile", "rows-after-malformed-answer", "empty-loop-body", "planted-bound-that-cannot-be-evaluated-again"]
     }
     fn assumptions(&self) -> Vec<&'static str> {
         vec![
@@ -127,6 +127,28 @@ impl Property for C01 {
         let mut pch = Ch::new(&s[2]);
         let _ = pch.u64();
         let planted = if pch.chance(1, 3) { plant_errors(&mut built, &mut pch) } else { 0 };
+        // In a fifth of the cases: `let dz = 2;` / `loop(lz, (6 / dz))` / `let dz = 0;` / row /
+        // `end loop` at a top-level position. The bound is evaluated once on entry (3 passes);
+        // inside the body it could no longer be evaluated.
+        if pch.chance(1, 5) {
+            use crate::model::*;
+            let id = built.prog.row_count();
+            let es: Vec<Entry> = built.cols.iter().map(|c| if c.role == ColRole::ExpectedOnly { Entry::X(true) } else { Entry::Num(0, Radix::Dec) }).collect();
+            let at = pch.upto(built.prog.stmts.len() + 1);
+            let new = vec![
+                Stmt::Let("dz".into(), Expr::lit(2)),
+                Stmt::Loop(
+                    "lz".into(),
+                    Expr::Group(Box::new(Expr::bin(BinOp::Div, Expr::lit(6), Expr::var("dz")))),
+                    vec![Stmt::Let("dz".into(), Expr::lit(0)), Stmt::Row(id, es)],
+                ),
+            ];
+            for (k, st) in new.into_iter().enumerate() {
+                built.prog.stmts.insert(at + k, st);
+            }
+            built.analysis = analyse(&built.prog);
+            out.class("planted-bound-that-cannot-be-evaluated-again");
+        }
         out.class_if(planted > 0, "planted-error-statements");
         out.class_if(cfg.bus, "wide-bus");
         built.prog.visit_stmts(&mut |st, _| {
